@@ -279,6 +279,10 @@ class Schema:
 
     # ----------------------------------------------------------- hooks with defaults
     def isinstance_special(self, eng, sv, clsname, st):
+        if clsname == "UUID":
+            if sv.k == "uuid":
+                return z3.BoolVal(True)
+            return is_VUuid(sv.t) if sv.k == "val" else z3.BoolVal(False)
         if clsname in ("bytes", "bytearray", "memoryview"):
             if sv.k == "blob":
                 return z3.BoolVal(clsname == "bytes")
@@ -328,6 +332,11 @@ class Schema:
             return eng.read_field(st, r, None, "uuid")
         if obj.k in ("int", "bool") and attr == "to_bytes":
             return SV("boundbuiltin", x=(obj, attr))
+        if obj.k == "val" and obj.cls is None and attr == "to_bytes":
+            return SV("boundbuiltin", x=(sv_int(eng.as_int(obj, st, "receiver of .to_bytes")), attr))
+        if obj.k == "val" and obj.cls is None and attr == "encode":
+            st.oblige("safety.is_str(receiver of .encode)", is_VStr(obj.t))
+            return SV("boundbuiltin", x=(SV("str", sval(obj.t)), attr))
         if attr == "bytes" and (obj.k == "uuid" or (obj.k == "val" and obj.cls in (None, "UUID"))):
             from .iomodel import sv_blob, u2b
             if obj.k == "val":
@@ -492,6 +501,24 @@ class Schema:
             a = args[0]
             if a.k == "bytes":
                 return SV("bytes", a.t, x=a.x)
+            if name == "bytes" and a.k in ("list", "tuple"):
+                # bytes([b0, b1, ...]) of a display of known length: ValueError outside 0..255
+                items = a.x if a.k == "tuple" else None
+                if items is None:
+                    n = z3.simplify(a.x)
+                    if not z3.is_int_value(n) or n.as_long() > 16:
+                        raise Unsupported("bytes(list of symbolic length)")
+                    items = [SV("val", z3.Select(a.t, i)) for i in range(n.as_long())]
+                from .iomodel import sv_blob, BSeq
+                units = []
+                for it in items:
+                    x = eng.as_int(it, st, "element of bytes([...])")
+                    s2 = st.fork()
+                    s2.assume(z3.Not(z3.And(0 <= x, x <= 255)))
+                    eng.exc_paths.append((s2, Exc("ValueError")))
+                    st.assume(z3.And(0 <= x, x <= 255))
+                    units.append(z3.Unit(x))
+                return sv_blob(z3.Concat(*units) if len(units) > 1 else (units[0] if units else z3.Empty(BSeq)))
             raise Unsupported("%s(x)" % name)
         if name == "getattr":
             if args[1].k == "str" and z3.is_string_value(args[1].t):
